@@ -126,20 +126,35 @@ func genTree(rng *rand.Rand, shape string) *tree {
 	default: // random
 		var rec func(prefix string, depth int)
 		rec = func(prefix string, depth int) {
+			// one entry in twelve has an unusual but legal name (dots only – not "." or ".." –, hidden,
+			// with blanks); at most one use of each per directory
+			odd := []string{"...", "....", ".hidden", "..x", "a b", ".. ", "x..", ". .", ".....", "~"}
+			used := map[string]bool{}
+			oddName := func(def string) string {
+				if rng.Intn(12) != 0 {
+					return def
+				}
+				n := odd[rng.Intn(len(odd))]
+				if used[n] {
+					return def
+				}
+				used[n] = true
+				return n
+			}
 			nf := rng.Intn(5)
 			for i := 0; i < nf; i++ {
 				name := fmt.Sprintf("f%d", i)
 				if rng.Intn(3) == 0 {
 					name += ".json"
 				}
-				t.files = append(t.files, prefix+name)
+				t.files = append(t.files, prefix+oddName(name))
 			}
 			if depth >= 4 {
 				return
 			}
 			nd := rng.Intn(4)
 			for i := 0; i < nd; i++ {
-				d := prefix + fmt.Sprintf("d%d", i)
+				d := prefix + oddName(fmt.Sprintf("d%d", i))
 				t.dirs = append(t.dirs, d)
 				rec(d+"/", depth+1)
 			}
@@ -374,7 +389,13 @@ func runLoop(r *sup.CaseResult, rng *rand.Rand, cfg runCfg) {
 	var firstMu sync.Mutex
 	firstTaken := false
 	cbOrder := 0
-	var bStarted, bVerdict int64
+	var bStarted, bVerdict, bFailed int64
+	var cbSecondErr error
+	secondFails := false
+	if cfg.Fault == "cb-then-readdir" {
+		cbSecondErr = fmt.Errorf("injected-second-callback-%08x", rng.Uint32())
+		secondFails = rng.Intn(2) == 0
+	}
 	cbFirstErr := fmt.Errorf("injected-first-callback-%08x", rng.Uint32())
 	var loopRef atomic.Value // *fsloop.Loop, set once the loop runs
 	lateRecorded := func() bool {
@@ -457,6 +478,11 @@ func runLoop(r *sup.CaseResult, rng *rand.Rand, cfg runCfg) {
 							break
 						}
 						time.Sleep(5 * time.Millisecond)
+					}
+					if secondFails {
+						// B fails too, after the loop was killed: a callback error all the same
+						atomic.StoreInt64(&bFailed, 1)
+						return cbSecondErr
 					}
 					return nil
 				}
@@ -598,6 +624,12 @@ func runLoop(r *sup.CaseResult, rng *rand.Rand, cfg runCfg) {
 		wit := map[string]any{"cfg": cfg, "late_listing": failPath}
 		if cbFailed && !has(cbFirstErr) {
 			r.Violate("error-lost", fmt.Sprintf("the first file callback returned %v, which is not in Errors() = %v", cbFirstErr, errs), wit)
+		}
+		if atomic.LoadInt64(&bFailed) == 1 {
+			r.AddObs("callbacks_that_failed_after_the_loop_was_killed", 1)
+			if !has(cbSecondErr) {
+				r.Violate("error-lost", fmt.Sprintf("a second file callback returned %v after the loop had been killed by the first failing callback; it is not in Errors() = %v", cbSecondErr, errs), wit)
+			}
 		}
 		switch atomic.LoadInt64(&bVerdict) {
 		case 1:
@@ -1083,7 +1115,7 @@ func main() {
 		Level: "exploration",
 		Race:  true,
 		Rule: "script: controlled schedule through the verif hooks – every consumer is parked at fsloop.consumer.gap / .between after it has seen empty queues, a gated source then lets the last directory be listed, the close announcement (fsloop.closed) is awaited, the consumers are released; directly on fsloop.Loop (1…16 consumers) and through fshelper.Copy. " +
-			"rand: trees (empty, single, chain of 30, fan-out 1100/2300 > channel capacity, random) × hash-keyed dir/file filters × producers/consumers 0…16 × GOMAXPROCS {1,2,4,16} × scheduling noise from the hook callback and the source's ReadDir × one injected callback/listing fault in 3/8 of the runs (1–3 goroutines poll Errors() meanwhile); half of the fan-out trees: one or two consumers and the very first file callback fails once the producer is parked on the full queue – Wait must return and report it (a Wait that does not return is judged from goroutine dumps: no callback running, every goroutine of the loop parked); event log (enter/exit/waited with one sequence counter) checked offline: exactly-once, nothing unexpected, max in-flight ≤ consumer limit, nothing after Wait, error present iff injected. distinct = distinct (configuration, hook-order signature, tree size)",
+			"rand: trees (empty, single, chain of 30, fan-out 1100/2300 > channel capacity, random) × hash-keyed dir/file filters × producers/consumers 0…16 × GOMAXPROCS {1,2,4,16} × scheduling noise from the hook callback and the source's ReadDir × one injected callback/listing fault in 3/8 of the runs (1–3 goroutines poll Errors() meanwhile); half of the fan-out trees: one or two consumers and the very first file callback fails once the producer is parked on the full queue – Wait must return and report it (a Wait that does not return is judged from goroutine dumps: no callback running, every goroutine of the loop parked); cb-then-readdir: a first callback fails (killing the loop), a listing held back until the kill is visible fails next, and a second callback – which keeps Wait from returning and in half of the runs fails too – waits until the listing error is listed or a goroutine dump shows no producer goroutine left: both later errors must be in the error list; random trees carry unusual legal names (dots only, hidden, blanks) in one entry in twelve; event log (enter/exit/waited with one sequence counter) checked offline: exactly-once, nothing unexpected, max in-flight ≤ consumer limit, nothing after Wait, error present iff injected. distinct = distinct (configuration, hook-order signature, tree size)",
 		Assumptions: []string{
 			"strict mode: after an error skipping is allowed, repetition is not",
 			"effective consumer limit = min(Consumers or MaxJob, MaxJob), MaxJob = NumCPU",
